@@ -178,7 +178,34 @@ impl<'a> Runner<'a> {
                 let da = norm(da, ua);
                 if da != db {
                     let ok = obs.resps.first().map(|r| r.status == 0).unwrap_or(true);
+                    // classify the amount: which record's size went unaccounted
+                    let key = cmd.key().map(|k| k.to_vec());
+                    let old_size = key.as_ref().and_then(|k| before.iter().find(|d| &d.key == k)).map(|d| d.size() as i128).unwrap_or(0);
+                    let new_size = key.as_ref().and_then(|k| after.iter().find(|d| &d.key == k)).map(|d| d.size() as i128).unwrap_or(0);
+                    let attempted = 24 + match cmd {
+                        Cmd::Store { value, .. } => value.len() as i128,
+                        Cmd::Concat { value, .. } => value.len() as i128 + old_size.max(24) - 24,
+                        _ => -24,
+                    };
+                    let removed: i128 = before
+                        .iter()
+                        .filter(|d| !after.iter().any(|a| a.key == d.key))
+                        .map(|d| d.size() as i128)
+                        .sum();
+                    let delta = da - db;
+                    let tag = if removed > 0 && delta == removed {
+                        "+removed-records"
+                    } else if delta == old_size && old_size > 0 && ok {
+                        "+old-record"
+                    } else if !ok && delta > 0 && (delta == attempted || delta == new_size) {
+                        "+rejected-record"
+                    } else if delta > 0 {
+                        "+other"
+                    } else {
+                        "-other"
+                    };
                     ap.viols.push(Viol {
+                        tag: tag.to_string(),
                         clause: "usage-drift",
                         detail: format!(
                             "{} ({}) moved accounted-minus-stored from {} to {} (accounted {} stored {})",
@@ -360,7 +387,9 @@ pub fn hist_text(cfg: &SeqCfg, h: &Hist) -> Vec<String> {
         .collect()
 }
 
-pub fn signature(clause: &str, cmd: &Cmd, state_class: &str) -> String {
+pub fn signature(clause: &str, tag: &str, cmd: &Cmd, state_class: &str) -> String {
+    let clause = if tag.is_empty() { clause.to_string() } else { format!("{}{}", clause, tag) };
+    let clause = clause.as_str();
     let cas = match cmd.cas_arg() {
         Some(crate::cmd::CasArg::Zero) | None => "cas0",
         Some(crate::cmd::CasArg::Current) => "cas=cur",
@@ -369,6 +398,12 @@ pub fn signature(clause: &str, cmd: &Cmd, state_class: &str) -> String {
         Some(crate::cmd::CasArg::Max) => "cas=max",
         Some(crate::cmd::CasArg::Arb(_)) => "cas=arb",
     };
+    // "live" and "may" are model-internal shades of "the item is there"
+    let state_class = if state_class == "live" || state_class == "may" { "present" } else { state_class };
+    if clause.starts_with("usage-drift") || clause.starts_with("live-item-lost") {
+        // identity of an accounting defect: which record went unaccounted, in which command
+        return format!("{}|{}", clause, cmd.kind());
+    }
     format!("{}|{}|{}|{}", clause, cmd.kind(), state_class, cas)
 }
 
@@ -416,7 +451,9 @@ pub fn explore_seq(cfg: &SeqCfg, threads: usize, tree_depth: usize) -> SeqReport
                             break;
                         }
                         let h = &fr[i];
+                        crate::watchdog::working_on(format!("[{}] history [{}] followed by one more command of the alphabet", cfg.name, hist_text(cfg, h).join(" ; ")));
                         for ci in 0..cfg.alphabet.len() {
+                            crate::watchdog::beat();
                             // enumerate every answer sequence to the victim choices
                             let mut dfs = explore::Dfs::new(u32::MAX);
                             while let Some(prefix) = dfs.next_prefix() {
@@ -466,7 +503,7 @@ pub fn explore_seq(cfg: &SeqCfg, threads: usize, tree_depth: usize) -> SeqReport
                                     let own = owners(vl.clause);
                                     if own.contains(&cfg.prop) {
                                         *owned_hits.lock().unwrap().entry(vl.clause.to_string()).or_insert(0) += 1;
-                                        let sig = signature(vl.clause, &cfg.alphabet[ci], ap.state_class);
+                                        let sig = signature(vl.clause, &vl.tag, &cfg.alphabet[ci], ap.state_class);
                                         let mut f = found.lock().unwrap();
                                         let better = match f.get(&sig) {
                                             None => true,
@@ -489,7 +526,7 @@ pub fn explore_seq(cfg: &SeqCfg, threads: usize, tree_depth: usize) -> SeqReport
                                         let owner = own.first().copied().unwrap_or("?");
                                         *foreign.lock().unwrap().entry(format!("{}:{}", owner, vl.clause)).or_insert(0) += 1;
                                         let mut fe = foreign_ex.lock().unwrap();
-                                        let k = format!("{}:{}", owner, signature(vl.clause, &cfg.alphabet[ci], ap.state_class));
+                                        let k = format!("{}:{}", owner, signature(vl.clause, &vl.tag, &cfg.alphabet[ci], ap.state_class));
                                         let txt = format!("{}  after [{}]", vl.detail, hist_text(cfg, &nh).join(" ; "));
                                         let better = fe.get(&k).map(|o| txt.len() < o.len()).unwrap_or(true);
                                         if better {
@@ -515,6 +552,7 @@ pub fn explore_seq(cfg: &SeqCfg, threads: usize, tree_depth: usize) -> SeqReport
                             }
                         }
                     }
+                    crate::watchdog::idle();
                     next.lock().unwrap().extend(local_next);
                 });
             }
